@@ -48,9 +48,9 @@ func checkTextUnits(c *Ctx, u *Universe) {
 				}
 			}
 		}
-		if !usesPositions {
-			continue
-		}
+		// functions that take positions from the program are covered in every case; the other text methods must not
+		// cut or measure the Go string by bytes either (a multi-byte separator / character would be split)
+		_ = usesPositions
 		nPos++
 		key := u.fname(f)
 		bad := ""
@@ -58,6 +58,12 @@ func checkTextUnits(c *Ctx, u *Universe) {
 			switch x := in.(type) {
 			case *ssa.Slice:
 				if isStringType(x.X.Type()) {
+					// advancing by the size the UTF-8 decoder returned cuts at a character boundary
+					if ex, isEx := x.Low.(*ssa.Extract); isEx && x.High == nil {
+						if _, isSize := decodeRuneSize(ex); isSize {
+							continue
+						}
+					}
 					bad = "slices the Go string (byte offsets) at " + u.pos(x.Pos())
 				}
 			case *ssa.Index:
@@ -70,7 +76,17 @@ func checkTextUnits(c *Ctx, u *Universe) {
 				}
 			case *ssa.Call:
 				if b, ok := x.Call.Value.(*ssa.Builtin); ok && b.Name() == "len" && len(x.Call.Args) == 1 && isStringType(x.Call.Args[0].Type()) {
-					bad = "measures the Go string with len() (bytes, not characters) at " + u.pos(x.Pos())
+					// "is anything left" tests (len(s) compared with 0) do not measure
+					onlyEmptyTests := len(*x.Referrers()) > 0
+					for _, r := range *x.Referrers() {
+						bo, isB := r.(*ssa.BinOp)
+						if !isB || !(isZeroConst(bo.Y) || isZeroConst(bo.X)) {
+							onlyEmptyTests = false
+						}
+					}
+					if !onlyEmptyTests {
+						bad = "measures the Go string with len() (bytes, not characters) at " + u.pos(x.Pos())
+					}
 				}
 			}
 		}
